@@ -1,3 +1,132 @@
 import Sheens.Compile
+import Sheens.Proofs.CompileLemmas
 
-/-! Property C13 — theorems (in progress). -/
+/-!
+# Property C13 — a spec's behaviour is independent of its representation; compiling is idempotent
+
+Over the model `Compile.compile` of `Spec.Compile` (repaired tree), for an abstract text codec.
+The codec's laws are hypotheses (fields of `GoodCodec`), never axioms; that `encoding/json` and the
+YAML loaders obey them on the documents the generators produce is what the correspondence run checks.
+Two compiled specs that are equal as `CSpec` values behave identically on every message sequence
+(the engine model is a function of the compiled spec), so the theorems are stated as equalities of
+compile results.
+-/
+
+namespace Sheens.C13
+
+open Compile
+
+/-- what the theorems assume of the codec, for a class `P` of pattern values (the JSON values):
+    marshalling succeeds and unmarshalling gives the value back; `P` values are not `null` -/
+structure GoodCodec (c : Codec) (P : V → Prop) : Prop where
+  roundtrip : ∀ v, P v → ∃ t, c.marshal v = some t ∧ c.unmarshal t = some v
+  notNull   : ∀ v, P v → v ≠ .null
+
+/-- every pattern of a document is in `P` -/
+def PatternsIn (P : V → Prop) (s : RawSpec) : Prop :=
+  ∀ nodes, s.nodes = some nodes → ∀ name n, (name, some n) ∈ nodes → ∀ br, n.branching = some br →
+    ∀ b, some b ∈ br.branches → ∀ p, b.pattern = some p → P p
+
+/-- every pattern of a compiled spec is in `P` -/
+def CPatternsIn (P : V → Prop) (cs : CSpec) : Prop :=
+  ∀ name nd, (name, nd) ∈ cs.nodes → ∀ ty bs, nd.branches = some (ty, bs) → ∀ b ∈ bs, ∀ p, b.pattern = some p → P p
+
+/-- Canonicalising a `P` value changes nothing. -/
+theorem canonicalize_id (c : Codec) (P : V → Prop) (hc : GoodCodec c P) (v : V) (hv : P v) :
+    canonicalize c (some v) = .ok (some v) := by
+  obtain ⟨t, hm, hu⟩ := hc.roundtrip v hv
+  have hne := nullToNone_of_ne v (hc.notNull v hv)
+  simp only [canonicalize, hm, hu]
+  exact congrArg Except.ok hne
+
+/-- Compiling again changes nothing: compiling the dump of a compiled spec gives the same compiled
+    spec (this is also "serialise the compiled spec and reload it"). -/
+theorem compile_idempotent (c : Codec) (P : V → Prop) (hc : GoodCodec c P) (known : String → Bool)
+    (srcOk : Source → Bool) (s : RawSpec) (cs : CSpec)
+    (h : compile c known srcOk s = .ok cs) (hp : CPatternsIn P cs) :
+    compile c known srcOk (decompile cs) = .ok cs := by
+  apply compile_decompile (compile_ok_inv h)
+  intro name nd hnd ty bs hbs b hb
+  cases hpat : b.pattern with
+  | none => rfl
+  | some p => exact canonicalize_id c P hc p (hp name nd hnd ty bs hbs b hb p hpat)
+
+/-- the same document with every pattern written as JSON text under `patternSyntax: json` -/
+def asText (c : Codec) (s : RawSpec) : RawSpec :=
+  { s with
+    patternSyntax := "json"
+    nodes := s.nodes.map (fun nodes => nodes.map (fun (name, n) =>
+      (name, n.map (fun n => { n with branching := n.branching.map (fun br =>
+        { br with branches := br.branches.map (fun b => b.map (fun b =>
+          { b with pattern := b.pattern.map (fun p => match c.marshal p with | some t => V.str t | none => p) })) }) })))) }
+
+/-- Patterns written inline or as JSON text compile to the same machine — including patterns that
+    are bare strings and bare variables. -/
+theorem compile_repr_independent (c : Codec) (P : V → Prop) (hc : GoodCodec c P) (known : String → Bool)
+    (srcOk : Source → Bool) (s : RawSpec) (hs : s.patternSyntax = "" ∨ s.patternSyntax = "none")
+    (hp : PatternsIn P s) :
+    compile c known srcOk (asText c s) = compile c known srcOk s := by
+  exact compile_text hc.roundtrip hc.notNull known srcOk hs hp
+
+/-- Unknown interpreters are rejected at compile time. -/
+theorem rejects_unknown_interpreter (c : Codec) (known : String → Bool) (srcOk : Source → Bool) (s : RawSpec)
+    (nodes : List (String × Option RawNode)) (name : String) (n : RawNode) (src : Source)
+    (hn : s.nodes = some nodes) (hm : (name, some n) ∈ nodes) (ha : n.action = some src)
+    (hk : known src.interpreter = false) :
+    ∃ e, compile c known srcOk s = .error e := by
+  apply compile_error_of_node hn hm
+  intro syn n' hpp
+  obtain ⟨n'', heq, hact, _⟩ := ppNode_ok_some hpp
+  simp only [Prod.mk.injEq, Option.some.injEq, true_and] at heq
+  subst heq
+  exact cNode_error_unknown_interpreter (hact.trans ha) hk
+
+/-- Unknown branching types are rejected at compile time. -/
+theorem rejects_unknown_branching_type (c : Codec) (known : String → Bool) (srcOk : Source → Bool) (s : RawSpec)
+    (nodes : List (String × Option RawNode)) (name : String) (n : RawNode) (br : RawBranching)
+    (hn : s.nodes = some nodes) (hm : (name, some n) ∈ nodes) (hb : n.branching = some br)
+    (ht : br.type ≠ "" ∧ br.type ≠ "message" ∧ br.type ≠ "bindings") :
+    ∃ e, compile c known srcOk s = .error e := by
+  apply compile_error_of_node hn hm
+  intro syn n' hpp
+  obtain ⟨n'', heq, _, hbr⟩ := ppNode_ok_some hpp
+  simp only [Prod.mk.injEq, Option.some.injEq, true_and] at heq
+  subst heq
+  obtain ⟨bs, _, hb'⟩ := hbr br hb
+  exact cNode_error_unknown_type hb' ht
+
+/-- An unknown pattern syntax is rejected at compile time (as soon as there is a branch to parse). -/
+theorem rejects_unknown_syntax (c : Codec) (known : String → Bool) (srcOk : Source → Bool) (s : RawSpec)
+    (nodes : List (String × Option RawNode)) (name : String) (n : RawNode) (br : RawBranching) (b : RawBranch)
+    (hn : s.nodes = some nodes) (hm : (name, some n) ∈ nodes) (hb : n.branching = some br)
+    (hbr : some b ∈ br.branches)
+    (hs : s.patternSyntax ≠ "" ∧ s.patternSyntax ≠ "none" ∧ s.patternSyntax ≠ "json") :
+    ∃ e, compile c known srcOk s = .error e := by
+  obtain ⟨e, he⟩ := ppNode_error_bad_syntax (c := c) (name := name) hb hbr hs
+  obtain ⟨e', he'⟩ := parsePatterns_error_of_node hn hm he
+  exact ⟨e', by rw [compile_eq, he']⟩
+
+/-- Compile is total on documents: it returns a compiled spec or an error for null nodes, null
+    branches, missing node lists — by construction (`compile` is a total function returning `Except`);
+    a null branch is an error, a null node becomes an empty node. -/
+theorem null_branch_is_error (c : Codec) (known : String → Bool) (srcOk : Source → Bool) (s : RawSpec)
+    (nodes : List (String × Option RawNode)) (name : String) (n : RawNode) (br : RawBranching)
+    (hn : s.nodes = some nodes) (hm : (name, some n) ∈ nodes) (hb : n.branching = some br)
+    (hnull : none ∈ br.branches) :
+    ∃ e, compile c known srcOk s = .error e := by
+  apply compile_error_of_node hn hm
+  intro syn n' hpp
+  obtain ⟨n'', heq, _, hbr⟩ := ppNode_ok_some hpp
+  simp only [Prod.mk.injEq, Option.some.injEq, true_and] at heq
+  subst heq
+  obtain ⟨bs, hbs, hb'⟩ := hbr br hb
+  obtain ⟨y, hy, hyn⟩ := mapM'_ok_mem hbs hnull
+  have : y = none := by
+    have h0 : ppBranch c s.patternSyntax none = .ok none := rfl
+    rw [h0] at hyn
+    simp only [Except.ok.injEq] at hyn
+    exact hyn.symm
+  subst this
+  exact cNode_error_null_branch hb' hy
+
+end Sheens.C13
